@@ -20,6 +20,13 @@ def import_repo():
     """Import numba_scfg from /repo's working tree (never an installed copy)."""
     if REPO not in sys.path:
         sys.path.insert(0, REPO)
+    loaded = sys.modules.get("numba_scfg")
+    if loaded is not None and os.path.abspath(getattr(loaded, "__file__", "") or "").startswith(
+            os.path.abspath(REPO) + os.sep):
+        # already the working tree's copy: importing it a second time would leave two generations of
+        # the classes alive in one process (isinstance / match statements of the old one fail on
+        # blocks built by the new one)
+        return loaded
     for m in [m for m in sys.modules if m.startswith("numba_scfg")]:
         del sys.modules[m]
     logging.disable(logging.CRITICAL)
